@@ -114,6 +114,16 @@ def rss_of_group(pgid):
     return total
 
 
+def mem_available():
+    try:
+        for l in open("/proc/meminfo"):
+            if l.startswith("MemAvailable:"):
+                return int(l.split()[1]) * 1024
+    except Exception:
+        pass
+    return 1 << 40
+
+
 def run_capped(cmd, cwd, cap_s, mem_gb, logfile, env=None):
     """Runs cmd in its own process group; kills the group on timeout or when RSS exceeds mem_gb.
     Returns (status, output, seconds, peak_rss) where status in ok/timeout/oom/<exit code>."""
@@ -135,6 +145,8 @@ def run_capped(cmd, cwd, cap_s, mem_gb, logfile, env=None):
                 status = "timeout"
             elif rss > mem_gb * (1 << 30):
                 status = "oom"
+            elif rss > (2 << 30) and mem_available() < (3 << 30):
+                status = "oom"  # the machine as a whole is about to run out of memory (no swap)
             if status:
                 try:
                     os.killpg(p.pid, signal.SIGKILL)
@@ -647,13 +659,17 @@ def main():
     ap = argparse.ArgumentParser()
     ap.add_argument("prop", nargs="?")
     ap.add_argument("--tier", default=os.environ.get("VERIF_TIER", "quick"), choices=["quick", "thorough"])
-    ap.add_argument("--jobs", type=int, default=int(os.environ.get("VERIF_JOBS", "16")))
-    ap.add_argument("--mem-gb", type=float, default=float(os.environ.get("VERIF_MEM_GB", "12")))
+    ap.add_argument("--jobs", type=int, default=int(os.environ.get("VERIF_JOBS", "0")), help="parallel harness processes; default 16 (quick) / 8 (thorough)")
+    ap.add_argument("--mem-gb", type=float, default=float(os.environ.get("VERIF_MEM_GB", "0")), help="RSS cap per harness process; default 12 (quick) / 24 (thorough)")
     ap.add_argument("--replay")
     ap.add_argument("--harness", action="append")
     ap.add_argument("--list", action="store_true")
     a = ap.parse_args()
     seed = int(os.environ.get("VERIF_SEED", "0"))
+    if not a.mem_gb:
+        a.mem_gb = 24.0 if a.tier == "thorough" else 12.0
+    if not a.jobs:
+        a.jobs = 8 if a.tier == "thorough" else 16
     if a.list:
         for s in load_specs().values():
             print(s["id"], s["props"], s["tier"], s["cap"])
